@@ -31,7 +31,12 @@ def load_known(pid):
         return []
     with open(path) as f:
         data = json.load(f)
-    return [e for e in data.get('findings', []) if e['property'] == pid]
+    found = [e for e in data.get('findings', []) if e['property'] == pid]
+    extra = os.path.join(ROOT, 'props', pid.lower() + '_known.json')   # staging file while a module is being built
+    if os.path.exists(extra):
+        with open(extra) as f:
+            found += [e for e in json.load(f).get('findings', []) if e['property'] == pid]
+    return found
 
 
 def parse_call(message):
